@@ -254,6 +254,7 @@ def check_config(cfg, w, rep):
     prog = w.prog
     is_async = not cfg.startswith("sync")
     _import_c02(cfg, w, rep)
+    _partial_append(cfg, w, rep)
     check_async_flush(cfg, w, rep)
     # R7: the two places where a failed publication step is deliberately tolerated ("somebody else already put it there") do so
     # only under a real existence check of the same destination that follows links: close() (C03 e) and the linker (C19 d)
@@ -549,6 +550,11 @@ def check_async_flush(cfg, w, rep):
                     short(lf.path), e.flags.get("op")))
     if not cfg.startswith("sync"):
         rep.floor("async_file_writes", n, 1, cfg)
+
+
+def _partial_append(cfg, w, rep):
+    """R9: a short write of the index record is a failure of the operation, not a success (the all-or-error clause of C04 b)."""
+    check_insert_writes_all_or_error(cfg, w, rep, "R9", "a write cut short by a full disk or a file-size limit would go unreported")
 
 
 def _import_c02(cfg, w, rep):
